@@ -47,8 +47,30 @@ def thr_big(arm, reward):
     return 1 if reward > 2 ** 53 + 1 + _rank(arm) else 0
 
 
+class TableThreshold:
+    """a binarizer that is an object, not a function: arm-dependent thresholds looked up in a table its owner extends when a new
+    arm appears (the thresholds of known arms never change, so it is one fixed function of (arm, reward)); an arm that is not
+    in the table is a KeyError"""
+    reference = staticmethod(thr_inside)
+
+    def __init__(self):
+        self.table = {}
+
+    def know(self, arm):
+        self.table[arm] = 0.2 + 0.15 * _rank(arm)
+
+    def __call__(self, arm, reward):
+        return 1 if reward > self.table[arm] else 0
+
+    def __repr__(self):
+        return "TableThreshold(%d arms)" % len(self.table)
+
+
+TABLE = TableThreshold()
 ALL = {f.__name__: f for f in (thr_inside, thr_half, thr_outside, inverted, nonneg, thr_three, thr_big)}
+ALL["table"] = TABLE
 
 
 def identity_on_binary(fn, arms):
+    fn = getattr(fn, "reference", fn)
     return all(fn(a, v) == v for a in arms for v in (0, 1, 0.0, 1.0))
